@@ -435,6 +435,49 @@ pub fn build_client_nested(prefix: &str, dtags: &str, dcid: &str, script: &str) 
     (client, log, handled)
 }
 
+/// `XT`: two threads fail a quiet send on one client at the same time: the handler invoked for the first failure is
+/// still running (it waits for the second thread to finish its send) when the second failure is reported.  Both must
+/// reach the handler.  Observation: the number of handler invocations and what each saw.
+fn run_xt() -> String {
+    use std::sync::atomic::{AtomicBool, AtomicUsize, Ordering};
+    use std::time::{Duration, Instant};
+    let handled: Arc<Mutex<Vec<String>>> = Arc::new(Mutex::new(vec![]));
+    let inside = Arc::new(AtomicBool::new(false));
+    let second_done = Arc::new(AtomicBool::new(false));
+    let calls = Arc::new(AtomicUsize::new(0));
+    let (h2, in2, sd2, c2) = (handled.clone(), inside.clone(), second_done.clone(), calls.clone());
+    let sink = RecSink { log: Arc::new(Mutex::new(vec![])), script: Arc::new(Mutex::new(VecDeque::new())) };
+    let client = Arc::new(
+        StatsdClient::builder("p", sink)
+            .with_error_handler(move |e| {
+                h2.lock().unwrap().push(canon_err(&e));
+                if c2.fetch_add(1, Ordering::SeqCst) == 0 {
+                    // the first invocation stays inside the handler until the other thread's send has returned
+                    in2.store(true, Ordering::SeqCst);
+                    let t0 = Instant::now();
+                    while !sd2.load(Ordering::SeqCst) && t0.elapsed() < Duration::from_secs(3) {
+                        std::thread::sleep(Duration::from_millis(1));
+                    }
+                }
+            })
+            .build(),
+    );
+    let (ca, cb) = (client.clone(), client.clone());
+    let a = std::thread::spawn(move || ca.time_with_tags("a", Duration::MAX).send());
+    let b = std::thread::spawn(move || {
+        let t0 = Instant::now();
+        while !inside.load(Ordering::SeqCst) && t0.elapsed() < Duration::from_secs(3) {
+            std::thread::sleep(Duration::from_millis(1));
+        }
+        cb.time_with_tags("b", Duration::MAX).send();
+        second_done.store(true, Ordering::SeqCst);
+    });
+    let _ = b.join();
+    let _ = a.join();
+    let h = handled.lock().unwrap();
+    format!("n={}:{}", h.len(), h.join("+"))
+}
+
 pub fn parse_form(s: &str) -> Form {
     match s {
         "T" => Form::TrySend,
@@ -492,6 +535,26 @@ fn run_x(t: &[&str]) -> String {
     out.join("|")
 }
 
+/// `KF <kind> <hex text>`: the `From<String>` conversion of every metric type keeps the text as it is
+fn run_kf(t: &[&str]) -> String {
+    let text = unhex0(t[2]);
+    let r = catch(|| match t[1] {
+        "c" => Counter::from(text.clone()).as_metric_str().to_string(),
+        "ms" => Timer::from(text.clone()).as_metric_str().to_string(),
+        "g" => Gauge::from(text.clone()).as_metric_str().to_string(),
+        "m" => Meter::from(text.clone()).as_metric_str().to_string(),
+        "h" => Histogram::from(text.clone()).as_metric_str().to_string(),
+        "d" => Distribution::from(text.clone()).as_metric_str().to_string(),
+        "s" => Set::from(text.clone()).as_metric_str().to_string(),
+        _ => "notype".to_string(),
+    });
+    match r {
+        Ok(s) if s == "notype" => s,
+        Ok(s) => hex0(s.as_bytes()),
+        Err(_) => "panic".to_string(),
+    }
+}
+
 fn run_k(t: &[&str]) -> String {
     let prefix = unhex0(t[2]);
     let key = unhex0(t[3]);
@@ -539,6 +602,8 @@ pub fn run_case(line: &str) -> String {
     match t[0] {
         "X" | "Y" | "XN" => run_x(&t),
         "K" => run_k(&t),
+        "KF" => run_kf(&t),
+        "XT" => run_xt(),
         "F" => run_f(&t),
         _ => panic!("bad wire case"),
     }
